@@ -288,32 +288,27 @@ Fixpoint spec_dops (app : N) (pending : list N) (ops : list dop) (obs : list Z) 
   | o :: r, a :: b :: obs' => dop_ok app pending o a b && spec_dops app (dpending_after pending o a b) r obs'
   | _, _ => false
   end.
-(* class 4: an owned invitation whose default room cannot be granted is presented again before a
-   restart (created invitations are ranked 1, 2, .. in creation order) *)
-Fixpoint bad_reuse (next : N) (bad used : list N) (ops : list dop) : bool :=
+(* class 5: this instance accepts an invitation it created itself (rank below the number created so
+   far) and is restarted afterwards: the sys.Invite row is written although the table already knows
+   the invitation, so after the restart it is registered twice *)
+Definition is_restart (o : dop) : bool := match o with DRestart => true | _ => false end.
+Fixpoint own_accept_then_restart (app next : N) (ops : list dop) : bool :=
   match ops with
   | [] => false
-  | DCreate g :: r => bad_reuse (N.succ next) (if N.eqb g 2 then next :: bad else bad) used r
-  | DConsume (TkInvite inv) _ :: r =>
-      if mem_n inv bad then (if mem_n inv used then true else bad_reuse next bad (inv :: used) r)
-      else bad_reuse next bad used r
-  | DLookup (TkInvite inv) _ :: r =>
-      if mem_n inv bad && mem_n inv used then true else bad_reuse next bad used r
-  | DRestart :: r => bad_reuse next bad [] r
-  | _ :: r => bad_reuse next bad used r
+  | DCreate _ :: r => own_accept_then_restart app (N.succ next) r
+  | DAccept (InviteFor inv a _) :: r =>
+      (N.ltb inv next && N.eqb a app && existsb is_restart r) || own_accept_then_restart app next r
+  | _ :: r => own_accept_then_restart app next r
   end.
-
-(* a connection is served only after ITS OWN proof: never while the proof is pending, and afterwards
-   only if the remote was entitled on this connection — whatever circuit it announces *)
-Fixpoint spec_circuit (conns : list (N * ttype * remote)) (obs : list Z) : bool :=
-  match conns, obs with
-  | [], [] => true
-  | (_, t, r) :: cs, before :: _ :: after :: obs' =>
-      Z.eqb before 0 &&
-      (if Z.eqb after 0 then true else match entitled 0 t r with Some _ => true | None => false end) &&
-      spec_circuit cs obs'
-  | _, _ => false
+(* scenario encoding for the theorems: received invitations carry foreign ids *)
+Fixpoint dops_ok (total : N) (ops : list dop) : bool :=
+  match ops with
+  | [] => true
+  | DAccept (InviteFor inv _ _) :: r => N.ltb total inv && dops_ok total r
+  | _ :: r => dops_ok total r
   end.
+Fixpoint n_dcreates (ops : list dop) : N :=
+  match ops with [] => 0%N | DCreate _ :: r => N.succ (n_dcreates r) | _ :: r => n_dcreates r end.
 
 Definition spec_C19 (c : c19case) (obs : list Z) : bool :=
   match c with
@@ -330,11 +325,11 @@ Definition spec_C19 (c : c19case) (obs : list Z) : bool :=
    2  two different secrets with the same x25519 public key (they differ only in bits the scalar
       clamping ignores) ask for each other's token
    3  (fixed 1e2cdf6) an invitation accepted twice was registered twice and consumed twice
-   4  an owned invitation whose default room cannot be granted when it is used stays in the in-memory
-      table (invite_accepted returns before removing it) and is presented again before a restart *)
+   4  (fixed 1c5e321) an owned invitation whose default room could not be granted stayed usable until restart
+   5  an instance accepts an invitation it created itself and restarts: registered twice afterwards *)
 Definition known_C19 (c : c19case) : list Z :=
   match c with
-  | CInvDb _ _ _ ops => if bad_reuse 1 [] [] ops then [4] else []
+  | CInvDb app _ _ ops => if own_accept_then_restart app 1 ops then [5] else []
   | CTokens secs probes =>
       if existsb (fun p => match nth_error secs (fst p), nth_error secs (snd p) with
                            | Some a, Some b => N.eqb (s_pub a) (s_pub b) && negb (N.eqb (s_bytes a) (s_bytes b))
